@@ -1,38 +1,69 @@
 (* Props/C02.v — C02: tokens are faithful, ordered, non-empty slices of the input.
-   Statements only.  The clauses are theorems of the individual lexer models; this file collects them.
-   (CSS, JS and HTML clauses are added as their models are merged; see props.d/C02.json.) *)
-From Verif Require Import Common.Base Common.Lx Cursor.Model Cursor.Proofs Xml.Model Xml.Step Xml.Proofs.
+   Statements only.  The clauses are theorems of the individual lexer models; this file collects them, one module
+   per lexer (the models share names).  CSS and JS clauses are added as their models are merged (props.d/C02.json). *)
+From Verif Require Import Common.Base.
+From Verif Require Common.Lx Cursor.Model Cursor.Proofs Xml.Model Xml.Step Xml.Proofs.
+From Verif Require Gen.Tables Html.Model Html.ListLemmas Html.Safety Html.Step Html.Proofs.
 
-(* Every slice the cursor hands out (Lexeme, Shift, Bytes — this is what every lexer returns as a token)
-   is observed as lo, hi, cap, bytes with cap = hi - lo = its length: three-index slicing, so appending to
-   a token reallocates and never overwrites input bytes. *)
-Theorem token_slices_cap_eq_len :
-  forall b lo hi o, obs_slice b lo hi = Some o ->
-    exists bytes, o = lo :: hi :: (hi - lo) :: bytes /\ len bytes = hi - lo.
-Proof. exact obs_slice_cap. Qed.
-Print Assumptions token_slices_cap_eq_len.
+Module Cursor.
+  Import Verif.Cursor.Model Verif.Cursor.Proofs.
+  (* Every slice the cursor hands out (Lexeme, Shift, Bytes — this is what every lexer returns as a token) is observed
+     as lo, hi, cap, bytes with cap = hi - lo = its length: three-index slicing, so appending to a token reallocates
+     and never overwrites input bytes. *)
+  Theorem token_slices_cap_eq_len :
+    forall b lo hi o, obs_slice b lo hi = Some o ->
+      exists bytes, o = lo :: hi :: (hi - lo) :: bytes /\ len bytes = hi - lo.
+  Proof. exact obs_slice_cap. Qed.
+  Print Assumptions token_slices_cap_eq_len.
+End Cursor.
 
-(* XML, all byte strings: tokens in order, non-empty, each ends at the cursor offset reported after the call
-   and starts where the previous one ended, except that whitespace may be skipped in front of a tag closer. *)
-Theorem xml_tokens_tile :
-  forall d n tr, run n (xml_init d) = Some tr -> tiled d 0 tr.
-Proof. exact xml_tiling_proof. Qed.
-Print Assumptions xml_tokens_tile.
+Module Xml.
+  Import Verif.Common.Lx Verif.Xml.Model Verif.Xml.Step Verif.Xml.Proofs.
+  (* all byte strings: tokens in order, non-empty, each ends at the cursor offset reported after the call and starts
+     where the previous one ended, except that whitespace may be skipped in front of a tag closer *)
+  Theorem xml_tokens_tile :
+    forall d n tr, run n (xml_init d) = Some tr -> tiled d 0 tr.
+  Proof. exact xml_tiling_proof. Qed.
+  Print Assumptions xml_tokens_tile.
+  (* the only bytes altered are TAB/LF/CR strictly inside a quoted attribute value, which read as a space *)
+  Theorem xml_only_quoted_whitespace_altered :
+    forall d s ty lo hi s', reach d s -> next s = Some (ty, Some (lo, hi), s') ->
+      (forall i, i < lo -> getz (lbuf (xr s')) i = getz (lbuf (xr s)) i) /\
+      (forall i, lo <= i < hi ->
+         getz (lbuf (xr s')) i = getz d i \/
+         (ty = TAttribute /\ exists aa ab, xattr s' = Some (aa, ab) /\ aa < i < ab /\ is_quote (getz d aa) /\
+                                          ws3 (getz d i) /\ getz (lbuf (xr s')) i = 32)).
+  Proof. exact xml_bytes_faithful_proof. Qed.
+  Print Assumptions xml_only_quoted_whitespace_altered.
+  (* Text() and AttrVal() are sub-slices of the token they belong to *)
+  Theorem xml_text_attrval_subslices :
+    forall d s ty lo hi s', reach d s -> next s = Some (ty, Some (lo, hi), s') ->
+      sl_in (xtext s') lo hi /\ sl_in (xattr s') lo hi /\ (ty <> TAttribute -> xattr s' = None).
+  Proof. exact xml_subslices_proof. Qed.
+  Print Assumptions xml_text_attrval_subslices.
+End Xml.
 
-(* XML: the only bytes altered are TAB/LF/CR strictly inside a quoted attribute value, which read as a space. *)
-Theorem xml_only_quoted_whitespace_altered :
-  forall d s ty lo hi s', reach d s -> next s = Some (ty, Some (lo, hi), s') ->
-    (forall i, i < lo -> getz (lbuf (xr s')) i = getz (lbuf (xr s)) i) /\
-    (forall i, lo <= i < hi ->
-       getz (lbuf (xr s')) i = getz d i \/
-       (ty = TAttribute /\ exists aa ab, xattr s' = Some (aa, ab) /\ aa < i < ab /\ is_quote (getz d aa) /\
-                                        ws3 (getz d i) /\ getz (lbuf (xr s')) i = 32)).
-Proof. exact xml_bytes_faithful_proof. Qed.
-Print Assumptions xml_only_quoted_whitespace_altered.
-
-(* XML: Text() and AttrVal() are sub-slices of the token they belong to. *)
-Theorem xml_text_attrval_subslices :
-  forall d s ty lo hi s', reach d s -> next s = Some (ty, Some (lo, hi), s') ->
-    sl_in (xtext s') lo hi /\ sl_in (xattr s') lo hi /\ (ty <> TAttribute -> xattr s' = None).
-Proof. exact xml_subslices_proof. Qed.
-Print Assumptions xml_text_attrval_subslices.
+Module Html.
+  Import Verif.Common.Lx Verif.Gen.Tables Verif.Html.Model Verif.Html.ListLemmas Verif.Html.Safety Verif.Html.Step Verif.Html.Proofs.
+  (* up to the first ErrorToken the tokens are non-empty, in order, inside the input, end at the reported offset and
+     cover everything except whitespace before the '>' / '/>' of a tag; their bytes are the input bytes with exactly
+     one view lower-cased, fixed by the token type (the tag name of start tags and svg/math/xml, the attribute name
+     unless it contains a template, the WHOLE end tag, nothing else) *)
+  Theorem html_tokens_tile :
+    forall c d n tr, cfg_ok c -> run c n (new_lexer d) = Ok tr -> tiles d 0 tr.
+  Proof. exact html_tiling_proof. Qed.
+  Print Assumptions html_tokens_tile.
+  (* Text(), AttrKey() and AttrVal() are sub-slices of the token they belong to *)
+  Theorem html_text_attr_subslices :
+    forall c d n tr, cfg_ok c -> run c n (new_lexer d) = Ok tr -> Forall subslices_at tr.
+  Proof. exact html_subslices_proof. Qed.
+  Print Assumptions html_text_attr_subslices.
+  (* REFUTED reading "only the case of tag and attribute names is altered": the whole end tag is lower-cased
+     (known finding c02-case:endtag) *)
+  Theorem html_endtag_case_refuted :
+    exists d v l' i, next no_tmpl (new_lexer d) = Ok (EndTagT, Some v, l') /\
+      so v <= i < so v + sn v /\ getz d (i - 1) = 61 /\ getz (lbuf (lz l')) i <> getz d i /\
+      view_bytes (lbuf (lz l')) v = [60; 47; 97; 32; 120; 61; 121; 62].
+  Proof. exact html_endtag_case_refuted_proof. Qed.
+  Print Assumptions html_endtag_case_refuted.
+End Html.
